@@ -12,6 +12,12 @@ from . import core, env
 
 
 def main(argv=None):
+    try:
+        import signal
+
+        signal.signal(signal.SIGPIPE, signal.SIG_DFL)  # `./check ... | head` must not end in a traceback
+    except Exception:  # noqa
+        pass
     ap = argparse.ArgumentParser()
     ap.add_argument("prop")
     ap.add_argument("--tier", default=os.environ.get("VERIF_TIER") or "quick", choices=["quick", "thorough"])
